@@ -271,6 +271,28 @@ fn family_descriptors(pairs: bool, opts: &Opts, sink: Sink) {
                 }
             }
         }
+    } else {
+        // quick tier: every ordered pair over a core set that contains descriptors which are character
+        // prefixes (but not token prefixes) of each other, in every spelling
+        let core = ["a", "ab", "a.b", "ab.a", "A", "\u{e9}", "\u{e9}e", "\u{e9}.a", "a.", "a.*", "ab.*", "*"];
+        for a in core {
+            for b in core {
+                if a != b {
+                    dlists.push(format!("{} {}", a, b));
+                }
+            }
+        }
+    }
+    // lists of three descriptors (an early non-matching one must not hide a later matching one)
+    let core3 = ["a", "ab", "ab.a", "\u{e9}", "\u{e9}e"];
+    for a in core3 {
+        for b in core3 {
+            for c in core3 {
+                if a != b && b != c && a != c {
+                    dlists.push(format!("{} {} {}", a, b, c));
+                }
+            }
+        }
     }
     // event names: 1..3 tokens over the alphabet incl. the empty token (not all empty)
     let ntoks = ["a", "ab", "b", "A", "\u{e9}", "\u{e9}e", ""];
